@@ -81,6 +81,9 @@ func chance(r *rand.Rand, p float64) bool { return r.Float64() < p }
 // withErrKind draws the error kind of an injected fault (never 409 on the
 // apply path: kubectl's patcher would retry it with back-off).
 func withErrKind(r *rand.Rand, a FAddr) FAddr {
+	if a.Kind == "FStream" {
+		return a // the address is its own error kind
+	}
 	for {
 		a.Err = r.Intn(len(faultErrs))
 		if !(a.Kind == "FApply" && faultErrs[a.Err] == 409) {
@@ -170,6 +173,7 @@ func genUniverse(r *rand.Rand, p profile, mutOK bool) Universe {
 	add(0.35, Entry("Deployment", invNS, "dep-a"))
 	add(0.25, Entry("Deployment", otherNS, "dep-a"))
 	add(0.4, Entry("ClusterRole", "", "cr-a"))
+	add(0.3, Entry("APIService", "", apiSvcName))
 	if chance(r, p.pInvalid) {
 		switch r.Intn(7) {
 		case 3:
@@ -208,7 +212,7 @@ func genUniverse(r *rand.Rand, p profile, mutOK bool) Universe {
 	for i := range es {
 		// a finalizer that nobody removes; not on Namespace / CRD objects: a terminating namespace
 		// rejects creates and a terminating CRD stops serving its kind, which neither the fake nor the model do
-		if es[i].Kind == KPlain && !es[i].FInv && chance(r, 0.25) {
+		if (es[i].Kind == KPlain || es[i].Kind == KApiSvc) && !es[i].FInv && chance(r, 0.25) {
 			es[i].Fin = true
 		}
 		// dependency references spelled as apply-time-mutation substitutions; only in histories
@@ -807,6 +811,27 @@ func genEnv(r *rand.Rand, p profile, op *Opts, cur Cluster, probe RunResult, loc
 	if p.pFault > 0 {
 		pf = p.pFault
 	}
+	// stream errors (every profile): the apply PATCH of an APIService dies and the fallback runs, half of the
+	// time with one of the fallback's own requests rejected as well; rarely the PATCH of another kind dies
+	for _, a := range probe.Addrs {
+		if a.Kind == "FStream" && a.N == 0 && chance(r, 0.5) {
+			env.Faults = append(env.Faults, a)
+			if fb := fallbackFaults(o, probe, a.I); chance(r, 0.5) {
+				env.Faults = append(env.Faults, withErrKind(r, fb[r.Intn(len(fb))]))
+			}
+		}
+	}
+	if ssaMode(o) && chance(r, 0.04) {
+		var cand []FAddr
+		for _, a := range probe.Addrs {
+			if a.Kind == "FApply" {
+				cand = append(cand, FAddr{Kind: "FStream", I: a.I, N: 0})
+			}
+		}
+		if len(cand) > 0 {
+			env.Faults = append(env.Faults, cand[r.Intn(len(cand))])
+		}
+	}
 	if p.faults == "one" && len(probe.Addrs) > 0 && chance(r, pf) {
 		cand := probe.Addrs
 		if p.pFault > 0 && chance(r, 0.8) {
@@ -824,6 +849,25 @@ func genEnv(r *rand.Rand, p profile, op *Opts, cur Cluster, probe RunResult, loc
 		env.Faults = []FAddr{withErrKind(r, cand[r.Intn(len(cand))])}
 	}
 	return env
+}
+
+// ssaMode: kubectl takes its server-side branch (server dry-run, or the option without client dry-run).
+func ssaMode(o Opts) bool { return o.Dry == DServer || (o.SSA && o.Dry == DNone) }
+
+// fallbackFaults lists the addresses of the requests the APIService fallback for object i makes after the
+// apply PATCH died: under server dry-run a second apply PATCH, otherwise a read (the next GET of the object
+// after those the probe saw) and the POST / PATCH.
+func fallbackFaults(o Opts, probe RunResult, i int) []FAddr {
+	if o.Dry == DServer {
+		return []FAddr{{Kind: "FStream", I: i, N: 1}, {Kind: "FApply", I: i}}
+	}
+	n := 0
+	for _, a := range probe.Addrs {
+		if a.Kind == "FGet" && a.I == i {
+			n++
+		}
+	}
+	return []FAddr{{Kind: "FGet", I: i, N: n}, {Kind: "FApply", I: i}}
 }
 
 // ---- shapes the implementation decides by map iteration order -------------------------------------
@@ -1109,7 +1153,41 @@ func (c *collector) count(sc Scenario, res RunResult) {
 	s.Count(fmt.Sprintf("faults:%d", len(sc.Env.Faults)))
 	for _, f := range sc.Env.Faults {
 		s.Count("fault:" + f.Kind)
-		s.Count(fmt.Sprintf("fault-error:%d", faultErrs[f.Err]))
+		if f.Kind == "FStream" {
+			s.Count("fault-error:stream")
+		} else {
+			s.Count(fmt.Sprintf("fault-error:%d", faultErrs[f.Err]))
+		}
+	}
+	for _, l := range sc.Local {
+		if sc.Univ[l.ID].Kind != KApiSvc {
+			continue
+		}
+		s.Count("apisvc:run-with-apiservice-in-apply-set")
+		// the fallback ran iff a rejected apply PATCH of the APIService is followed by its apply result event
+		// with the server-side option on; what it did shows in the requests in between
+		died, after := false, ""
+		for _, it := range res.Out.Trace {
+			switch {
+			case strings.HasPrefix(it.Text, fmt.Sprintf("REQ RPatch %d ssa=true ", l.ID)) && strings.Contains(it.Text, "REJECTED") && !died:
+				died = true
+			case died && strings.HasPrefix(it.Text, "REQ ") && len(strings.Fields(it.Text)) > 2 && strings.Fields(it.Text)[2] == fmt.Sprint(l.ID):
+				after += strings.Fields(it.Text)[1]
+				if strings.Contains(it.Text, "REJECTED") {
+					after += "(rejected)"
+				}
+				after += " "
+			}
+		}
+		stream := false
+		for _, f := range sc.Env.Faults {
+			if f.Kind == "FStream" && f.I == l.ID && f.N == 0 {
+				stream = true
+			}
+		}
+		if died && stream && o.SSA {
+			s.Count("apisvc:fallback after stream error: " + strings.TrimSpace(after))
+		}
 	}
 	switch sc.Env.Cancel.Kind {
 	case CBeforeSync:
@@ -1606,6 +1684,78 @@ func (c *collector) corpus() {
 		c.fixedHistory(ud, empty, []fixedRun{{local: only(cm, bar), opts: Opts{Prune: true, Policy: PMustMatch, ValPol: VSkipInvalid}}})
 		c.fixedHistory(ud, empty, []fixedRun{{local: only(cm, bar), opts: pl}})
 	}
+	// 21. APIService: the server-side-apply PATCH dies with an HTTP/2 stream error and ApplyTask falls back to a
+	// client-side apply whose outcome is the outcome of the apply (apply_task.go; seed C01e)
+	{
+		ua := NewUniverse([]UEntry{Entry("ConfigMap", invNS, "cm-a"), Entry("APIService", "", apiSvcName)})
+		cm, as := ua.Index(Entry("ConfigMap", invNS, "cm-a").Meta), ua.Index(Entry("APIService", "", apiSvcName).Meta)
+		both := []LObj{{ID: cm, Ver: 1}, {ID: as, Ver: 1}}
+		newer := []LObj{{ID: cm, Ver: 1}, {ID: as, Ver: 2}}
+		empty := Cluster{NextUID: 100}
+		ssa := func(pol Policy, d Dry) Opts { return Opts{Prune: true, Policy: pol, SSA: true, Dry: d} }
+		mm := ssa(PMustMatch, DNone)
+		stream := FAddr{Kind: "FStream", I: as, N: 0}
+		des := Opts{Destroy: true, Prune: true, Policy: PMustMatch}
+		// first apply: the fallback creates the object; the same again on a healthy server; destroy
+		c.fixedHistory(ua, empty, []fixedRun{{local: both, opts: mm, faults: []FAddr{stream}}, {local: both, opts: mm}, {opts: des}})
+		// a server on which every apply PATCH of the APIService dies: create, unchanged, changed, prune
+		c.fixedHistory(ua, empty, []fixedRun{{local: both, opts: mm, faults: []FAddr{stream}}, {local: both, opts: mm, faults: []FAddr{stream}},
+			{local: newer, opts: mm, faults: []FAddr{stream}}, {local: both[:1], opts: mm}})
+		c.fixedHistoryR(ua, empty, []fixedRun{{local: both, opts: mm, faults: []FAddr{stream}}, {local: newer, opts: mm, faults: []FAddr{stream}}, {opts: des}}, true)
+		// the fallback's read is rejected (the policy filter read the object before: second GET; adopt-all: first GET)
+		c.fixedHistory(ua, empty, []fixedRun{{local: both, opts: mm, faults: []FAddr{stream, {Kind: "FGet", I: as, N: 1}}}, {local: both, opts: mm}})
+		c.fixedHistory(ua, empty, []fixedRun{{local: both, opts: ssa(PAdoptAll, DNone), faults: []FAddr{stream, {Kind: "FGet", I: as, N: 0, Err: 1}}}})
+		// the fallback's POST is rejected; then the fallback works
+		c.fixedHistory(ua, empty, []fixedRun{{local: both, opts: mm, faults: []FAddr{stream, {Kind: "FApply", I: as}}}, {local: both, opts: mm, faults: []FAddr{stream}}})
+		// the APIService exists already: owned by another inventory / by this one / by nobody, with and without a
+		// last-applied annotation; adopt-all (fallback PATCH or unchanged) and must-match (filtered before any request)
+		for _, ow := range []Owner{OOther, OOurs, ONone} {
+			for _, applied := range []bool{true, false} {
+				o := CObj{ID: as, UID: 1, Owner: ow, Ver: 1}
+				if applied {
+					o = o.Applied()
+				}
+				live := Cluster{NextUID: 100, HasInv: true, Inv: []int{}, Objs: []CObj{o}}
+				if ow == OOurs {
+					live.Inv = []int{as}
+				}
+				for _, pol := range []Policy{PAdoptAll, PMustMatch} {
+					c.fixedHistory(ua, live, []fixedRun{{local: both, opts: ssa(pol, DNone), faults: []FAddr{stream}}})
+				}
+				// the fallback's PATCH is rejected
+				c.fixedHistory(ua, live, []fixedRun{{local: newer, opts: ssa(PAdoptAll, DNone), faults: []FAddr{stream, {Kind: "FApply", I: as, Err: 1}}},
+					{local: newer, opts: ssa(PAdoptAll, DNone), faults: []FAddr{stream}}})
+			}
+		}
+		// dry-run: under server dry-run the second attempt is another dry-run apply PATCH (it works; it dies too; it
+		// is rejected); server dry-run without the server-side option: no fallback; client dry-run: no apply PATCH at all
+		tracked := Cluster{NextUID: 100, HasInv: true, Inv: []int{as}, Objs: []CObj{CObj{ID: as, UID: 1, Owner: OOurs, Ver: 1}.Applied()}}
+		for _, cl := range []Cluster{empty, tracked} {
+			c.fixedHistory(ua, cl, []fixedRun{{local: newer, opts: ssa(PMustMatch, DServer), faults: []FAddr{stream}}, {local: newer, opts: mm, faults: []FAddr{stream}}})
+			c.fixedHistory(ua, cl, []fixedRun{{local: newer, opts: ssa(PMustMatch, DServer), faults: []FAddr{stream, {Kind: "FStream", I: as, N: 1}}}})
+			c.fixedHistory(ua, cl, []fixedRun{{local: newer, opts: ssa(PMustMatch, DServer), faults: []FAddr{stream, {Kind: "FApply", I: as}}}})
+			c.fixedHistory(ua, cl, []fixedRun{{local: newer, opts: Opts{Prune: true, Policy: PMustMatch, Dry: DServer}, faults: []FAddr{stream}}})
+			c.fixedHistory(ua, cl, []fixedRun{{local: newer, opts: ssa(PMustMatch, DClient), faults: []FAddr{stream}}})
+		}
+		// the same error for another kind is a plain failure; without server-side apply the address matches nothing
+		c.fixedHistory(ua, empty, []fixedRun{{local: both, opts: mm, faults: []FAddr{{Kind: "FStream", I: cm, N: 0}}}, {local: both, opts: mm}})
+		c.fixedHistory(ua, empty, []fixedRun{{local: both, opts: Opts{Prune: true, Policy: PMustMatch}, faults: []FAddr{stream}}})
+		// the run is cancelled while the PATCH that dies is served: the fallback still runs, nothing is started afterwards
+		c.fixedHistory(ua, empty, []fixedRun{{local: both, opts: mm, faults: []FAddr{stream}, cancel: CancelPt{Kind: CDuringReq, I: as}}})
+		// a dependent of the APIService: applied after a fallback that worked, skipped after one that did not
+		depOn := []LObj{{ID: cm, Ver: 1, Deps: []int{as}}, {ID: as, Ver: 1}}
+		c.fixedHistory(ua, empty, []fixedRun{{local: depOn, opts: mm, faults: []FAddr{stream}}, {opts: des}})
+		c.fixedHistory(ua, empty, []fixedRun{{local: depOn, opts: mm, faults: []FAddr{stream, {Kind: "FApply", I: as}}}})
+		// status events on; reconcile of the object the fallback created times out
+		c.fixedHistory(ua, empty, []fixedRun{{local: both, opts: Opts{Prune: true, Policy: PMustMatch, SSA: true, StatusEvents: true, RecTimeout: true},
+			faults: []FAddr{stream}, stall: []int{as}}})
+		// held by a finalizer: created by the fallback, then destroy twice (it lingers)
+		fa := Entry("APIService", "", apiSvcName)
+		fa.Fin = true
+		uf2 := NewUniverse([]UEntry{Entry("ConfigMap", invNS, "cm-a"), fa})
+		c.fixedHistory(uf2, empty, []fixedRun{{local: both, opts: mm, faults: []FAddr{stream}},
+			{opts: Opts{Destroy: true, Prune: true, Policy: PMustMatch, PruneTimeout: true}}, {opts: Opts{Destroy: true, Prune: true, Policy: PMustMatch, PruneTimeout: true}}})
+	}
 	// a plain round trip: apply two, apply one (prune), destroy
 	c.fixedHistory(u, Cluster{NextUID: 100}, []fixedRun{
 		{local: []LObj{{ID: 0, Ver: 1}, {ID: 1, Ver: 1, Deps: []int{0}}}, opts: Opts{Prune: true, Policy: PMustMatch}},
@@ -1662,6 +1812,12 @@ func (c *collector) base(r *rand.Rand, p profile, budget *int) {
 			sc.Opts = genOpts(r, p, k, histSSA, allowDry)
 			if !sc.Opts.Destroy {
 				sc.Local = genLocals(r, p, u, cur)
+			}
+			for _, l := range sc.Local {
+				// an APIService in the apply set: server-side apply half of the time (the fallback needs it)
+				if u[l.ID].Kind == KApiSvc && chance(r, 0.5) {
+					sc.Opts.SSA = true
+				}
 			}
 		}
 		for try := 0; orderDependent(u, cur, sc) && try < 6; try++ {
@@ -1726,6 +1882,12 @@ func (c *collector) variants(r *rand.Rand, p profile, st *Store, h History, sc S
 	var sets [][]FAddr
 	for _, a := range probe.Addrs {
 		sets = append(sets, []FAddr{withErrKind(r, a)})
+		if a.Kind == "FStream" && a.N == 0 {
+			// the fallback runs and one of its own requests is rejected
+			for _, b := range fallbackFaults(sc.Opts, probe, a.I) {
+				sets = append(sets, []FAddr{a, withErrKind(r, b)})
+			}
+		}
 	}
 	if p.faults == "pairs" && probe.NReq <= 12 {
 		for i := range probe.Addrs {
